@@ -8,7 +8,7 @@
     proves that the real code ([reent = false]) never asks for p.mu while holding it,
     and Properties/C13_gen.v re-checks that syntactically on the Go source. *)
 From Coq Require Import List NArith ZArith Bool Arith Lia.
-From Tongo Require Import Model.Pool Model.PoolWait Proofs.PoolWaitP.
+From Tongo Require Import Model.Pool Model.PoolWait Proofs.PoolP Proofs.PoolWaitP.
 Import ListNotations.
 
 Section Reent.
@@ -156,3 +156,70 @@ Lemma coal_schedule_real_code_delivers :
                LTake; LRLock [0]; LSend; LRUnlock; LTake; LRLock [0]; LRUnlock; LRecv 0] = Some s /\
             wgot s 0 = Some (0, 7%N) /\ wpc s 0 = WUnsub ROk /\ updq s = [].
 Proof. eexists. split; [vm_compute; reflexivity|]. repeat apply conj; reflexivity. Qed.
+
+
+(** ---- the currency test as a uint32 difference ([maxSeqno - seqno <= 1]) ----
+    "maxSeqno is the maximum over all heads, so the difference cannot wrap."  For every
+    fixed assignment of heads this is the 64-bit test of the code; but updateBest reads
+    every head twice holding only the pool lock, a head can rise in between, and then
+    maxSeqno - seqno wraps to 2^32-1: the connection that has just delivered the newest
+    block of the pool is taken for hopelessly behind. *)
+Definition current_sub32 (maxs : N) (c : conn) : bool := (u32 (maxs + two32 - seq32 c) <=? 1)%N.
+Definition usable_sub32 (maxs : N) (c : conn) : bool := c_alive c && current_sub32 maxs c.
+
+Fixpoint find_first_working_sub32 (maxs : N) (cs : list conn) (i : nat) : option nat :=
+  match cs with
+  | [] => None
+  | c :: t => if usable_sub32 maxs c then Some i else find_first_working_sub32 maxs t (S i)
+  end.
+Fixpoint find_best_ping_sub32 (maxs : N) (cs : list conn) (i : nat) (best : option (nat * Z)) : option (nat * Z) :=
+  match cs with
+  | [] => best
+  | c :: t => find_best_ping_sub32 maxs t (S i) (if usable_sub32 maxs c then better i c best else best)
+  end.
+Definition update_best2_sub32 (st : strategy) (cs1 cs2 : list conn) (prev : option nat) : option nat :=
+  match cs2 with
+  | [] => prev
+  | _ =>
+      let m := max_seqno cs1 in
+      match st with
+      | BestPing => match find_best_ping_sub32 m cs2 0 None with Some (i, _) => Some i | None => prev end
+      | FirstWorking => match find_first_working_sub32 m cs2 0 with Some i => Some i | None => prev end
+      | OtherStrategy => prev
+      end
+  end.
+
+(** on a snapshot (the head is not above the maximum) the two tests agree — which is why no
+    grid of fixed configurations can tell them apart *)
+Lemma sub32_agrees_on_snapshots m c :
+  (seq32 c <= m)%N -> (m < two32)%N -> current_sub32 m c = current_go m c.
+Proof.
+  intros Hle Hm. unfold current_sub32, current_go, u32. pose proof (seq32_lt c) as Hc. unfold two32 in *.
+  replace (m + 4294967296 - seq32 c)%N with ((m - seq32 c) + 1 * 4294967296)%N by lia.
+  rewrite N.mod_add by lia. rewrite N.mod_small by lia.
+  destruct (N.leb_spec (m - seq32 c) 1), (N.leb_spec m (seq32 c + 1)); try reflexivity; lia.
+Qed.
+
+(** REFUTED for the uint32-difference design: connection 0 (the previous choice) is dead,
+    connection 1 is alive; both were at head 100 when the maximum was taken, block 101 reaches
+    connection 1 before the second read.  The refresh keeps the dead connection, under both
+    strategies; the code (64-bit sum) chooses connection 1. *)
+Definition race_cs1 : list conn := [mkConn false 100 1; mkConn true 100 2].
+Definition race_cs2 : list conn := [mkConn false 100 1; mkConn true 101 2].
+
+Theorem update_best_racing_head_refuted_sub32 :
+  heads_rose race_cs1 race_cs2 /\
+  update_best2_sub32 BestPing race_cs1 race_cs2 (Some 0) = Some 0 /\
+  update_best2_sub32 FirstWorking race_cs1 race_cs2 (Some 0) = Some 0 /\
+  ~ is_choice BestPing (fun c => c_alive c = true /\ (newest race_cs1 - seq32 c <= 1)%N) race_cs2 (Some 0)
+      (update_best2_sub32 BestPing race_cs1 race_cs2 (Some 0)) /\
+  update_best2 BestPing race_cs1 race_cs2 (Some 0) = Some 1 /\
+  update_best2 FirstWorking race_cs1 race_cs2 (Some 0) = Some 1.
+Proof.
+  split; [repeat constructor; vm_compute; discriminate|].
+  split; [vm_compute; reflexivity|]. split; [vm_compute; reflexivity|]. split; [|split; vm_compute; reflexivity].
+  replace (update_best2_sub32 BestPing race_cs1 race_cs2 (Some 0)) with (Some 0) by (vm_compute; reflexivity).
+  intros [[Hnone _]|(i & c & [= <-] & Hn & [Ha _] & _)].
+  - apply (Hnone (mkConn true 101 2)); [right; left; reflexivity|]. split; [reflexivity|vm_compute; discriminate].
+  - cbn in Hn. injection Hn as <-. discriminate Ha.
+Qed.
